@@ -206,7 +206,7 @@ CHECKS = {
              "arguments rebuild, in any manager state, a record with exactly the stored (attribute URI, ==-value) pairs (via C09C loop_args); "
              "non-vacuity shown on a concrete heap and record. Tied to /repo by three channels on every generated document: writer tree, reader on the same "
              "text, strict end-to-end comparison for all json.dump option sets. Container level (Props/C01C): c01_container_elems - the dict encode_json_container builds, walked as the reader walks it, holds exactly one record object per record under its kind and identifier (arrays for repeated identifiers, _:idN for anonymous records): nothing lost, nothing repeated. Reader side of the container loop (Props/C01D): the record phase of decode_json_container is exactly the in-order walk over contElems - one decode_json_element per (kind label, identifier, record object), arrays element by element, stopping at the first error (recs_eq_elemFold, for every well-formed body); the dict the writer builds is such a body (WfCont is an invariant of encode_json_container: wfCont_fileAll), so for any record list the reader makes exactly one decode_json_element call per record object the writer filed, each once (c01_reader_meets_filed = recs_eq_elemFold + c01_container_elems).",
-        note=A_COMMON + " Props/C01E composes the record theorem with the heap plumbing of new_record for documents: c01_element (one decode_json_element appends exactly one cell with the stored content, managers untouched) and c01_elements (the whole record walk, by induction). Prefix blocks, bundles and the order inside one identifier's array are mirrored in the model "
+        note=A_COMMON + " Props/C01E composes the record theorem with the heap plumbing of new_record for documents: c01_element (one decode_json_element appends exactly one cell with the stored content, managers untouched) and c01_elements (the whole record walk, by induction); Props/C01F joins writer and reader: c01_document_records - for every record list encode_json_container accepts and every document that reads its names back, the reader's record phase on the writer's dict appends exactly one cell per record (a permutation of the records), each with the stored content, no earlier cell and no manager touched. Prefix blocks and bundles are mirrored in the model "
              "and compared, not yet part of the composed statement. Known finding C01-1: names not readable in their bundle's scope (C03-1) change URI. "
              "A-JSONTEXT assumed; of A-LEX only float(repr(x)) = x remains an assumption: int(str(n)) = n is core's toInt?_repr and "
              "parse(isoformat(t)) = t is proved for every valid date-time (Prov/Lemmas/Iso.lean: parseIso_iso), dateutil agreeing with the "
